@@ -16,6 +16,11 @@
 (*           (layers): decorate events (decorator k applied to function -on or to the decorated    *)
 (*           function on) and calls, every event with the projection [fn, chain] of ALL decorated  *)
 (*           functions afterwards; calls with the outcome and the evaluations of every function     *)
+(* Every recorded call carries `order`: the names of its keywords in the order they were WRITTEN at *)
+(* the call site (cc.kw is the canonical spelling); the verdict is the law on the call, whatever the *)
+(* order (Decorators!IsSpelling).  Histories may be of any length: the folds below are the laws of   *)
+(* Decorators.tla (c') - hundreds and thousands of distinct combinations on one cached function,     *)
+(* then repeats of early, middle and late ones; hundreds of calls on one wrapper object.             *)
 (* Verdict folds the events of a history over the abstract state with the operators of           *)
 (* Decorators.tla and returns "" or the name of the first clause the observation breaks.         *)
 (* Clauses starting with "spec_" mean the specification or the driver is wrong, not pyg-base.    *)
@@ -38,6 +43,7 @@ LayerClauses(sig, cc, ws, i) ==          \* ws[i] = [layer, out, argspec, gca, c
 BindVerdict(o) ==
     LET sig == o.sig  cc == o.cc IN
     IF ~WellFormed(sig) THEN "spec_bad_signature"
+    ELSE IF ~IsSpelling(o.order, cc) THEN "spec_bad_spelling"                  \* the order the keywords were written in
     ELSE IF o.argspec # ArgSpec(sig) THEN "spec_signature_vs_python"         \* inspect.getfullargspec(f)
     ELSE IF o.pyg_argspec # ArgSpec(sig) THEN "same_signature"                \* pyg_base.getargspec(f)
     ELSE IF ~Valid(sig, cc) THEN (IF o.inspect # Raises("TypeError") THEN "spec_validity_vs_python" ELSE LayerClauses(sig, cc, o.layers, 1))
@@ -77,7 +83,7 @@ CallClause(sig, st, e) ==
         pair  == IsPair(e.out)
         n     == IF pair THEN e.out[2][2][2] ELSE e.evals
     IN
-    IF e.obj > Len(st.heap) \/ ~ValidFor(sig, chain, cc) THEN "spec_invalid_call"
+    IF e.obj > Len(st.heap) \/ ~ValidFor(sig, chain, cc) \/ ~IsSpelling(e.order, cc) THEN "spec_invalid_call"
     ELSE IF e.heap # st.heap THEN "call_changed_an_object"
     ELSE IF e.evals < st.nev THEN "spec_counter"
     ELSE IF want = Unspecified THEN ""
@@ -118,7 +124,7 @@ MemoFold(sig, es, i, m, ev) ==
     ELSE LET e == es[i]  cc == e.cc  r == MemoCall(m, ev, sig, cc)
              at == "@" \o ToString(i)
              shape == IF HasQuiet(cc) THEN e.out = None ELSE IsPair(e.out) /\ e.out[2][1] = Bind(sig, cc) IN
-         IF ~Valid(sig, cc) THEN "spec_invalid_call"
+         IF ~Valid(sig, cc) \/ ~IsSpelling(e.order, cc) THEN "spec_invalid_call"
          ELSE IF HasBad(cc) THEN (IF e.out = Raises(FailClass(cc)) /\ e.evals > ev THEN MemoFold(sig, es, i + 1, m, e.evals)
                                   ELSE "transparent_call" \o at)
          ELSE IF ~shape THEN "transparent_call" \o at
@@ -133,7 +139,7 @@ MemoVerdict(o) == IF ~WellFormed(o.sig) THEN "spec_bad_signature" ELSE MemoFold(
 ArgsClause(sig, chain, st, e) ==
     LET ch == IF e.obj = 0 THEN <<>> ELSE chain  suffix == IF e.obj = 0 THEN "" ELSE "_wrapped" IN
     IF e.op = "get" THEN
-         IF ~Valid(sig, e.cc) THEN "spec_invalid_call"
+         IF ~Valid(sig, e.cc) \/ ~IsSpelling(e.order, e.cc) THEN "spec_invalid_call"
          ELSE IF e.out # Bind(sig, e.cc) THEN "getcallargs" \o suffix
          ELSE IF e.store # Append(st, Bind(sig, e.cc)) THEN "argument_changed" ELSE ""
     ELSE IF e.op = "replay" THEN
@@ -174,7 +180,7 @@ DecoClause(o, st, e) ==
              f == BaseOutcome(sig, Effective(sig, ob.chain, cc))
              want == LawOutcome(sig, ob.chain, cc)
              hit == \E k \in 1..Len(ob.memo) : ob.memo[k] = cc IN
-         IF ~ValidFor(sig, ob.chain, cc) THEN "spec_invalid_call"
+         IF ~ValidFor(sig, ob.chain, cc) \/ ~IsSpelling(e.order, cc) THEN "spec_invalid_call"
          ELSE IF e.heap # DecoViewOf(st) THEN "call_changed_an_object"
          ELSE IF ~OutOK(want, e.out) THEN (IF IsInterrupt(f) THEN "interrupt_passes_through"
                                           ELSE IF IsFailure(f) /\ TryIdx(ob.chain) # {} THEN "fallback_iff_raises" ELSE "transparent_call")
